@@ -100,6 +100,15 @@ Theorem allocation_during_sweep : forall hashf d g p r, dtors_ok d ->
 Proof. exact RegistryProofs.allocation_during_sweep_thm. Qed.
 Print Assumptions allocation_during_sweep.
 
+(* any allocation of a destructor, temporaries included (allocated and deleted again inside
+   the same destructor, possibly at an address released earlier in the same sweep) *)
+Theorem destructor_action : forall hashf d rf g a f, dtors_ok d ->
+  Inv hashf g -> 0 < f -> ~ In (fst (dact_pair a)) (d_olist d) ->
+  exists g', Gact hashf d rf f g a = Some g' /\ Inv hashf g' /\
+             length (pending g') = length (pending g).
+Proof. exact RegistryProofs.destructor_action_thm. Qed.
+Print Assumptions destructor_action.
+
 (* GC_Mark_Item on a registered aligned address: the [minptr, maxptr] pre-filter lets it
    through, the probe loop reaches it, it ends up marked (interface to C01) *)
 Theorem mark_item_marks_registered : forall hashf g p s,
@@ -127,7 +136,7 @@ Proof. split; apply adm_runb_ok; vm_compute; reflexivity. Qed.
 Example history_is_not_trivial :
   let g := Grun ex_hash ex_d false false ex_ops gc_init in
   nitems g = 2 /\ In (EvReclaim 16) (evs g) /\ In (EvRem 24) (evs g) /\ In (EvSpawn 4104 true) (evs g) /\
-  maxptr g = 4104%N /\ ~ In (EvFin 16) (evs g) /\
+  In (EvSpawn 4112 false) (evs g) /\ In (EvFin 4112) (evs g) /\ maxptr g = 4112%N /\ ~ In (EvFin 16) (evs g) /\
   In (EvFin 16) (evs (Grun ex_hash ex_d true true ex_ops gc_init)).
 Proof.
   vm_compute. repeat split; try tauto.
